@@ -50,3 +50,9 @@ theorem armLexemes_symTable :
 def scanArmOrderExpected : List String :=
   ["sym", "sym", "sym", "sym", "sym", "sym", "sym", "sym", "sym", "'\\n'", "sym", "sym", "sym", "sym",
    "if c == '_' || c.is_alphabetic()", "'0'..='9'", "if c.is_whitespace()", "'#'", "_"]
+
+/-- what continues an identifier (`is_alphanumeric` or `_`: the model's `identCont`) and a number (ASCII digits: `isDigit`), and
+how a literal gets its value (the decimal value of exactly the scanned bytes, arbitrary precision: `digitsValue`) -/
+def scanLoopsExpected : List (String × String) :=
+  [("ident", "d == '_' || d.is_alphanumeric()"), ("number", "d.is_ascii_digit()")]
+def literalValueExpected : String := "BigInt::parse_bytes(&source_contents.as_bytes()[i..end],10).unwrap()"
